@@ -133,6 +133,7 @@ struct Aggr {
     std::vector<ptrdiff_t> id;
     std::vector<char> strong;    // validated flags (library's value on near-ties)
     long removed = 0, naggr_nodes = 0, small_removed = 0;
+    bool all_small = false;      // empty because every aggregate was smaller than min_aggregate
     StrengthStats st;
 };
 
@@ -189,6 +190,9 @@ inline Aggr check_aggregates(const Csr<double> &K, float eps, int b, unsigned mi
     try {
         co::pointwise_aggregates pw(*kc, prm, min_aggregate);
         VF_REQUIRE(!plain_empty, what << " pointwise_aggregates: built aggregates although plain aggregation of the pointwise matrix has no strong connection");
+        // every aggregate smaller than min_aggregate: nothing is left to coarsen, which must be signalled as an empty level
+        // (a zero-column prolongation made amg build a 0x0 coarse level and crash in the direct solver; fixed in /repo by ef9207a)
+        VF_REQUIRE(ecount > 0, what << " pointwise_aggregates: all " << pcount << " aggregates are smaller than min_aggregate=" << min_aggregate << " and were removed, but count=" << pw.count << " was returned instead of signalling an empty level");
         VF_REQUIRE(pw.count == ecount, what << " pointwise_aggregates: count=" << pw.count << " expected " << ecount << " (block_size*" << ecount / b << ")");
         VF_REQUIRE(static_cast<ptrdiff_t>(pw.id.size()) == K.n, what << " pointwise_aggregates: id size");
         VF_REQUIRE(static_cast<ptrdiff_t>(pw.strong_connection.size()) == K.nnz(), what << " pointwise_aggregates: strong_connection size");
@@ -224,8 +228,9 @@ inline Aggr check_aggregates(const Csr<double> &K, float eps, int b, unsigned mi
         for (ptrdiff_t i = 0; i < K.n; ++i) if (pw.id[i] < 0) ++out.removed;
         out.naggr_nodes = K.n - out.removed;
     } catch (const amgcl::error::empty_level &) {
-        VF_REQUIRE(plain_empty, what << " pointwise_aggregates: signalled an empty level although the pointwise matrix has strong connections");
+        VF_REQUIRE(plain_empty || ecount == 0, what << " pointwise_aggregates: signalled an empty level although the pointwise matrix has strong connections and " << ecount / b << " aggregates reach min_aggregate=" << min_aggregate);
         out.empty = true;
+        if (!plain_empty) out.all_small = true;
     }
     return out;
 }
